@@ -31,12 +31,16 @@ class ModCtx:
     """AST and import table of one repo module."""
     _cache = {}
 
-    def __init__(self, modname):
+    def __init__(self, modname, source=None):
         self.name = modname
-        rel = modname.replace(".", "/") + ".py"
-        self.path = os.path.join(REPO, rel)
-        with open(self.path, encoding="utf-8") as f:
-            self.source = f.read()
+        if source is None:
+            rel = modname.replace(".", "/") + ".py"
+            self.path = os.path.join(REPO, rel)
+            with open(self.path, encoding="utf-8") as f:
+                self.source = f.read()
+        else:
+            self.path = "<generated %s>" % modname
+            self.source = source
         self.tree = ast.parse(self.source)
         self.imports = {}
         self.toplevel = {}
@@ -72,6 +76,11 @@ class ModCtx:
         m = cls._cache.get(modname)
         if m is None:
             m = cls._cache[modname] = ModCtx(modname)
+        return m
+
+    @classmethod
+    def register_generated(cls, modname, source):
+        m = cls._cache[modname] = ModCtx(modname, source)
         return m
 
     def find_def(self, qualname):
@@ -127,6 +136,7 @@ class Engine:
         self.fn = self.mod.find_def(qual)
         if self.fn is None:
             raise Unsupported("function %s not found in %s" % (qual, self.mod.path))
+        self.stmt_hook = None
         self.cls = None
         parts = qual.split(".")
         if len(parts) >= 2 and isinstance(self.mod.find_def(parts[0]), ast.ClassDef):
@@ -356,7 +366,7 @@ class Engine:
             et = hint or items[0].ty
             if any(i.ty != et for i in items):
                 et = hint or ANY
-            if et.kind in ("none", "opt", "tuple"):
+            if et.kind in ("none", "opt", "tuple", "closure", "static", "class", "bound", "module", "star"):
                 et = ANY
             t = None
             for i in items:
@@ -472,6 +482,11 @@ class Engine:
                     else:
                         yield st3, ops.binop(st3, op, a, b)
                 continue
+            if (a.ty.kind == "any" or b.ty.kind == "any") and getattr(self.contract, "opaque_attrs", False):
+                # operator on an arbitrary object: __add__/__radd__ ... may return anything or raise
+                yield st2.fork(), Raised(Exc(None, origin="operator %s on an arbitrary object line %d" % (op, n.lineno)))
+                yield st2, V(ANY, ops.UF("any_binop_" + type(n.op).__name__, z3.IntSort(), z3.IntSort(), z3.IntSort())(box(a).t, box(b).t))
+                continue
             yield st2, ops.binop(st2, op, a, b, alloc=lambda s, _st=st2: self.alloc_list(_st, s))
 
     def ev_Compare(self, n, st):
@@ -534,6 +549,11 @@ class Engine:
             return
         if k == "closure":
             raise Unsupported("attribute %s of a closure" % attr)
+        if k == "any" and getattr(self.contract, "opaque_attrs", False):
+            # attribute of an arbitrary object: some value, or AttributeError / whatever __getattr__ raises
+            yield st.fork(), Raised(Exc(None, origin="getattr(<object>, %r) line %d" % (attr, line)))
+            yield st, V(ANY, ops.UF("any_getattr", z3.IntSort(), z3.StringSort(), z3.IntSort())(base.t, z3.StringVal(attr)))
+            return
         raise Unsupported("attribute %s of %s (line %d)" % (attr, base.ty, line))
 
     def wf(self, st, v: V) -> V:
@@ -627,6 +647,11 @@ class Engine:
             return
         if base.ty.kind == "any":
             raise Unsupported("subscript of an opaque value (line %d)" % line)
+        if base.ty.kind == "obj" and not is_listlike(base.ty):
+            gk = S.find_method(base.ty.name, "__getitem__")
+            if gk:
+                yield from self.apply_contract(gk, [base, idx], {}, st, "%s[...] line %d" % (base.ty.name, line))
+                return
         s = ops.as_seq(st, base)
         if s.t is None:
             yield st, Raised(Exc(IndexError, origin="line %d" % line))
@@ -709,6 +734,15 @@ class Engine:
                 dstar = k.value
             else:
                 kw_nodes.append(k)
+        if isinstance(n.func, ast.Name) and n.func.id == "__M_dict_builtin" and len(n.args) == 1 \
+                and isinstance(n.args[0], ast.ListComp):
+            # the generated "__M_locals.update(dict([(k, stored[k]) for k in [...] if k in stored]))" idiom:
+            # a new dict holding some of the listed names (content irrelevant to the render state)
+            d = st.new_ref(DICT(STR, ANY))
+            st.dict_set(d, z3.Const("lcd!%d" % fresh(INT).t.hash(), z3.ArraySort(z3.StringSort(), z3.BoolSort())),
+                        z3.Const("lcv!%d" % fresh(INT).t.hash(), z3.ArraySort(z3.StringSort(), z3.IntSort())))
+            yield st, d
+            return
         for st1, f in self.ev(n.func, st):
             if isinstance(f, Raised):
                 yield st1, f
@@ -744,6 +778,12 @@ class Engine:
             st.list_set(lst, z3.Concat(cur.t, z3.Unit(item.t)))
             yield st, vnone()
             return
+        lcr = getattr(self.contract, "local_call_requires", None)
+        if lcr and isinstance(n.func, ast.Name) and n.func.id in lcr:
+            se = SpecEval(st, self.spec_env(st), self.old0, self.penv0, self)
+            for cl in lcr[n.func.id]:
+                self.oblige(st, se.bool_of(cl.expr), "at-call:%s:%s" % (n.func.id.rstrip("0123456789"), cl.label), cl.klass, "call-pre",
+                            "at the call of %s (line %d): %s" % (n.func.id, line, cl.expr))
         if k == "fun":
             if f.ty.name not in S.FUNSPECS:
                 raise Unsupported("callable spec %r missing" % f.ty.name)
@@ -751,6 +791,26 @@ class Engine:
             yield from self.null_guard_call(st, f, line, lambda s: self.apply_spec(fs, args, kwargs, s, "call of %s at line %d" % (f.ty.name, line), starv, dstarv, fval=f))
             return
         if k == "closure":
+            ckey = getattr(f, "_key", None)
+            if ckey in S.CONTRACTS:
+                # a nested def that has its own contract: modular call, captured variables read from
+                # the environment the closure was created in
+                node, cenv, cframes = f.py
+                cc = S.CONTRACTS[ckey]
+                extra = {}
+                for nm in cc.captures:
+                    v = cenv.get(nm)
+                    if v is None:
+                        for fr in reversed(cframes):
+                            if nm in fr:
+                                v = fr[nm]
+                                break
+                    if v is None:
+                        raise Unsupported("captured variable %s of %s is unbound at the call (line %d)" % (nm, ckey, line))
+                    extra[nm] = coerce(v, cc.captures[nm])
+                self.used_contracts.add(ckey)
+                yield from self.apply_spec(cc, args, kwargs, st, "%s line %d" % (ckey, line), starv, dstarv, extra_env=extra)
+                return
             yield from self.inline_closure(st, f, args, kwargs, n)
             return
         if k == "bound":
@@ -764,6 +824,16 @@ class Engine:
             yield from self.call_static(st, f.py, args, kwargs, n, starv, dstarv)
             return
         if k == "any":
+            spec = getattr(self.contract, "opaque_call_spec", None)
+            if spec:
+                fs = S.FUNSPECS[spec]
+                f2 = V(Ty("fun", (), spec), f.t)
+                for st2, isn in self.branch(st, f.t == 0):
+                    if isn:
+                        yield st2, Raised(Exc(TypeError, origin="None() line %d" % line))
+                    else:
+                        yield from self.apply_spec(fs, args, kwargs, st2, "call of an arbitrary object (spec %s) line %d" % (spec, line), starv, dstarv, fval=f2)
+                return
             raise Unsupported("call of an opaque value at line %d (give the parameter a Fun[...] type)" % line)
         raise Unsupported("call of %s at line %d" % (f.ty, line))
 
@@ -814,6 +884,9 @@ class Engine:
         obj = st.new_ref(OBJ(cname))
         if cs.listlike:
             st.list_set(obj, z3.Empty(z3.SeqSort(sort_of(cs.listlike))))
+        elif not cs.dictlike and "__bool__" not in cs.properties and S.find_method(cname, "__bool__") is None \
+                and S.find_method(cname, "__len__") is None:
+            st.assume(ops.any_truthy(obj.t))       # instances of a class without __bool__/__len__ are truthy
         key = S.find_method(cname, "__init__")
         real = self.real_object(q)
         if key is None:
@@ -829,6 +902,11 @@ class Engine:
 
     def call_static(self, st, q, args, kwargs, n, starv, dstarv):
         line = n.lineno
+        # aliases the generated modules define for builtins
+        if q.endswith(":__M_dict_builtin"):
+            q = "builtins:dict"
+        elif q.endswith(":__M_locals_builtin"):
+            q = "builtins:locals"
         if q in S.CONTRACTS:
             yield from self.apply_contract(q, args, kwargs, st, "%s line %d" % (q, line), starv, dstarv)
             return
@@ -976,7 +1054,7 @@ class Engine:
             self.used_assumed.add(key)
         yield from self.apply_spec(c, args, kwargs, st, what, starv, dstarv)
 
-    def apply_spec(self, c: S.Contract, args, kwargs, st, what, starv=None, dstarv=None, fval=None):
+    def apply_spec(self, c: S.Contract, args, kwargs, st, what, starv=None, dstarv=None, fval=None, extra_env=None):
         if "**" in kwargs:
             # f(**d): the callee receives a *new* dict holding d's items plus the explicit keywords
             kwargs = dict(kwargs)
@@ -996,7 +1074,24 @@ class Engine:
             else:
                 dstarv = V(STAR, py=("kwargs-of", src))
         self._pending_nonnull = []
+        dname0 = next((p for p in c.params if p.startswith("**")), None)
+        if dname0 is not None and c.params[dname0].kind == "dict" and dstarv is None:
+            # f(a, k=v): the callee's **kwargs is a new dict of the keywords it does not name
+            kt, vt = c.params[dname0].args
+            plain0 = [p for p in c.params if not p.startswith("*")]
+            kwargs = dict(kwargs)
+            nd = st.new_ref(c.params[dname0])
+            dom = z3.K(sort_of(kt), z3.BoolVal(False))
+            val = z3.Const("kwval!%d" % fresh(INT).t.hash(), z3.ArraySort(sort_of(kt), sort_of(vt)))
+            for k in [k for k in kwargs if k not in plain0]:
+                v = kwargs.pop(k)
+                dom = z3.Store(dom, z3.StringVal(k), True)
+                val = z3.Store(val, z3.StringVal(k), coerce(v, vt).t)
+            st.dict_set(nd, dom, val)
+            dstarv = nd
         env = self.bind(c, args, kwargs, what, starv, dstarv)
+        if extra_env:
+            env.update(extra_env)
         for isnone, pname in self._pending_nonnull:
             self.oblige(st, z3.Not(isnone), "pre:%s:arg-%s-not-None" % (c.key.split(":")[-1], pname), "P", "call-pre",
                         "%s: argument %s may be None where %s is declared (%s)" % (c.key, pname, c.params.get(pname) or c.params.get("*" + pname), what))
@@ -1012,6 +1107,11 @@ class Engine:
         # 1. preconditions are obligations of the caller
         se = SpecEval(st, env, None, None, self)
         for cl in c.requires:
+            if cl.klass == "I":
+                # a global data-structure invariant: established when the structure is created and
+                # preserved by each of its mutators (their own obligations), not re-proved per call site
+                self.used_invariants = getattr(self, "used_invariants", set()) | {cl.label}
+                continue
             self.oblige(st, se.bool_of(cl.expr), "pre:%s:%s" % (c.key.split(":")[-1], cl.label),
                         "P", "call-pre", "%s requires %s (%s)" % (c.key, cl.expr, what))
         old = st.fork()
@@ -1079,16 +1179,11 @@ class Engine:
             n = n.args[0]
         se = SpecEval(old, env, None, None, self)
         if isinstance(n, ast.Call) and isinstance(n.func, ast.Name) and n.func.id == "fresh_heap":
-            # objects allocated by the callee may have any value in this field family;
-            # objects that existed before the call keep theirs
-            key = n.args[0].value
-            self._touch_heap_key(st, key)
-            for hk in [k for k in list(st.heap) if k == key or k.startswith(key + "?") or k.startswith(key + "!")]:
-                a = st.heap[hk]
-                a2 = z3.Const("hvf_%s!%d" % (hk, fresh(INT).t.hash()), a.sort())
-                x = z3.Int("x!fh")
-                st.assume(z3.ForAll([x], z3.Implies(z3.And(x > 0, x < old.alloc), a2[x] == a[x])))
-                st.heap[hk] = a2
+            # The callee writes this field family only in objects it allocates.  Those indices lie at
+            # or above the caller's allocation counter, where the array is unconstrained anyway, so
+            # nothing has to change in the caller's view: existing objects keep their values, and
+            # what the caller reads from a fresh object is arbitrary unless the callee's
+            # postcondition says otherwise.
             return
         if isinstance(n, ast.Call) and isinstance(n.func, ast.Name) and n.func.id == "heap":
             # heap("f:Class.field") : havoc a whole field array (coarse frames for opaque callees)
@@ -1165,7 +1260,14 @@ class Engine:
         m = getattr(self, "ex_" + type(s).__name__, None)
         if m is None:
             raise Unsupported("statement %s at line %d" % (type(s).__name__, s.lineno))
-        yield from m(s, st)
+        hook = getattr(self, "stmt_hook", None)
+        if hook is None:
+            yield from m(s, st)
+            return
+        token = hook(self, "before", s, st, None, None)
+        for kind, st2, payload in m(s, st):
+            hook(self, "after", s, st2, kind, token)
+            yield kind, st2, payload
 
     def ex_Expr(self, s, st):
         if isinstance(s.value, ast.Constant):
@@ -1223,7 +1325,9 @@ class Engine:
         yield "next", st, None
 
     def ex_FunctionDef(self, s, st):
-        st.env[s.name] = V(CLOSURE, py=(s, st.env, list(st.frames)))
+        v = V(CLOSURE, py=(s, st.env, list(st.frames)))
+        v._key = "%s.%s" % (getattr(st, "_fn_key", None) or self.key, s.name)
+        st.env[s.name] = v
         yield "next", st, None
 
     def ex_Return(self, s, st):
@@ -1604,6 +1708,9 @@ class Engine:
                 continue
             if ls is None:
                 raise Unsupported("loop %s at line %d needs an invariant" % (k, s.lineno))
+            if it.ty.kind == "any" and getattr(self.contract, "opaque_iter_spec", None):
+                yield from self.loop_rule(s, st1, k, ls, ("iter", V(Ty("fun", (), self.contract.opaque_iter_spec), it.t)))
+                continue
             if is_dictlike(it.ty):
                 seqv = self.dict_key_seq(st1, it)
             elif getattr(it, "_range", None) is not None:
@@ -1668,6 +1775,7 @@ class Engine:
         prefix_axiom(st, "zero")
         # 1. invariant holds on entry
         se = SpecEval(st, self.spec_env(st), self.old0, self.penv0, self)
+        se.pre_st, se.pre_env = st, self.spec_env(st)
         for cl in ls["inv"]:
             self.oblige(st, se.bool_of(cl.expr), "%s:inv-entry:%s" % (tag, cl.label), "L", "loop-inv",
                         "loop %d invariant on entry: %s" % (k, cl.expr))
@@ -1701,6 +1809,7 @@ class Engine:
                 st.assume(i.t <= self.seq_len(source[1]))
         # 3. assume invariant
         se = SpecEval(st, self.spec_env(st), self.old0, self.penv0, self)
+        se.pre_st, se.pre_env = pre_loop, self.spec_env(pre_loop)
         for cl in ls["inv"]:
             st.assume(se.bool_of(cl.expr))
         variant0 = None
@@ -1713,6 +1822,7 @@ class Engine:
                 prefix_axiom(st_end, "step", st_end.ghost[idx_name].t)
                 st_end.ghost[idx_name] = V(INT, st_end.ghost[idx_name].t + 1)
             se2 = SpecEval(st_end, self.spec_env(st_end), self.old0, self.penv0, self)
+            se2.pre_st, se2.pre_env = pre_loop, self.spec_env(pre_loop)
             for cl in ls["inv"]:
                 self.oblige(st_end, se2.bool_of(cl.expr), "%s:inv-preserved:%s" % (tag, cl.label), "L",
                             "loop-inv", "loop %d invariant preserved: %s" % (k, cl.expr))
